@@ -409,7 +409,7 @@ def run_world(w, rng):
             if rng.random() < 0.3:      # an earlier tally of other cards must leave no trace
                 A.Contest.tally(con_dict, cvrs[: max(1, len(cvrs) // 2)], enforce_rules=not enforce)
             A.Contest.tally(con_dict, cvrs, enforce_rules=enforce)
-        except Exception as e:  # noqa
+        except Exception:  # noqa  (a tally that raised shows up as a tally differing from the model's)
             pass
         try:
             tab = [(k, list(v.items())) for k, v in A.CVR.tabulate_votes(cvrs).items()]
@@ -446,8 +446,7 @@ def run_world(w, rng):
                     m_cases.append(mc)
                     break
             facts.append({"spec": {k: v for k, v in s.items() if k != "_rng"}, "enforce": enforce, "n_f": n_f,
-                          "margins": [(kind, fl(asn.margin)) for kind, asn in asns] if raised is None else [],
-                          "obs_index": len(a_cases) - len(built) + built.index(gens)})
+                          "margins": [(kind, fl(asn.margin)) for kind, asn in asns] if raised is None else []})
             # explicit-argument variants on one assertion
             if asns:
                 kind, asn = asns[rng.randrange(len(asns))]
@@ -544,7 +543,7 @@ def oracle_case(acase, fact, viol):
             if o["kind"][0] != "sm" or any(v is None for v in o["vals"]):
                 continue
             runs += 1
-            f, win = o["kind"][1], o["kind"][2]
+            win = o["kind"][2]
             lst = set(cands)
             valid = sum(1 for c in cards if len((raw_marks(c, con) or set()) & lst) == 1)
             wv = sum(1 for c in cards if (raw_marks(c, con) or set()) & lst == {win})
@@ -621,7 +620,7 @@ def reader_cases(rng, worlds, n):
 
 
 # ---------------------------------------------------------------- exhaustive small profiles
-def run_exhaustive(rng, sample_for_coq):
+def run_exhaustive(rng):
     """all multisets of <= 4 cards x 3 candidates; every ordered (w, l) plurality pair, every winner for the
     super-majority with three shares.  Returns a_cases (all of them carry the oracle; a subset goes to Coq)."""
     A = AU()
@@ -631,7 +630,6 @@ def run_exhaustive(rng, sample_for_coq):
         warnings.simplefilter("ignore")
         for w in worlds:
             cvrs = make_cvrs(w["cards"])
-            n_with = sum(1 for c in w["cards"] if "c1" in c["votes"])
             # plurality: each single winner against the two others, built from one Contest
             for x in cands:
                 others = [y for y in cands if y != x]
@@ -704,7 +702,6 @@ def run(ctx, res):
         w = gen_world(rng)
         worlds.append(w)
         ac, tc, mc, facts = run_world(w, rng)
-        base = len(a_cases)
         a_cases += ac
         t_cases += tc
         m_cases += mc
@@ -727,7 +724,7 @@ def run(ctx, res):
             hit("world:make_all_assertions")
         hit(f"cards:{'1' if len(w['cards']) == 1 else '2-8' if len(w['cards']) <= 8 else '9-24' if len(w['cards']) <= 24 else '25-40'}")
     # ---- exhaustive small profiles (oracle on all; correspondence on all in thorough, a rotating part in quick)
-    ea, et, em, efacts = run_exhaustive(rng, None)
+    ea, et, em, efacts = run_exhaustive(rng)
     for c, f in zip(ea, efacts):
         res.oracle_runs += oracle_case(c, f, res.oracle_violations)
     res.exhaustive = True
